@@ -2,6 +2,7 @@ import MdsVerif.Proofs.Stack
 import MdsVerif.Proofs.Mlink
 import MdsVerif.Proofs.MlinkRefine
 import MdsVerif.Proofs.Ring
+import MdsVerif.Gen.MlinkCursor
 /-!
 # C10 — stack, mlink.List/Queue and ring.Ring preserve their abstract sequence
 
@@ -188,6 +189,40 @@ example :
       .each 10, .get 1]
     = [.unit, .unit, .unit, .unit, .val 2, .panicInvalid, .panicInvalid, .panicInvalid,
        .list [1, 3, 4], .val 3] := by decide
+
+/-! ### every method of `Cursor` checks validity before it dereferences `c.pred` (regenerated table) -/
+
+/-- a method is safe when the first thing its body does with the cursor is `c.pred.checkValid()`, or a
+call of another method of `Cursor` that is safe (`fuel` bounds the delegation chain) -/
+def cursorMethodSafe (ms : List Gen.MlinkCursor.Method) : Nat → String → Bool
+  | 0, _ => false
+  | fuel + 1, name =>
+    match ms.find? (·.name == name) with
+    | none => false
+    | some m => !m.derefsFirst && (m.checksFirst || (m.delegatesTo != "" && cursorMethodSafe ms fuel m.delegatesTo))
+
+/-- **C10_cursor_methods_check_validity.**  Over the table `Gen.MlinkCursor.methods`, regenerated from
+mlink/list.go by `extract/mlink.go` on every run (for every method declared on `Cursor`: the first use of
+the cursor in its body, in source order): the methods are exactly the eight the model `Model.Mlink`
+mirrors, none of them dereferences `c.pred` before a validity check, and each either starts with
+`c.pred.checkValid()` (`AtEnd`, `Push`, `Truncate`) or with a call of such a method (`Get`, `Set`, `Next`,
+`Remove` → `AtEnd`; `Add` → `Push`); `entry.checkValid` still panics with "invalid cursor" on a
+self-linked entry (`recognised`).  This is what finding F7 was about: before commit 7f86572 `Truncate`
+was `c.pred.link.invalidate()` (`derefsFirst`), which never returns on a stale cursor
+(`C10_F7_unfixed_truncate_diverges`).  A method added to `Cursor`, or one whose first statement changes,
+changes `Gen/MlinkCursor.lean` and this theorem is re-decided. -/
+theorem C10_cursor_methods_check_validity :
+    Gen.MlinkCursor.recognised = true ∧
+    Gen.MlinkCursor.methods.map (·.name) = ["Add", "AtEnd", "Get", "Next", "Push", "Remove", "Set", "Truncate"] ∧
+    (∀ m ∈ Gen.MlinkCursor.methods, m.derefsFirst = false) ∧
+    ∀ m ∈ Gen.MlinkCursor.methods, cursorMethodSafe Gen.MlinkCursor.methods 3 m.name = true := by
+  decide
+
+/-- non-vacuity: the table of the code before commit 7f86572 (finding F7) is rejected -/
+example : cursorMethodSafe
+    [{ name := "AtEnd", checksFirst := true, delegatesTo := "", derefsFirst := false },
+     { name := "Truncate", checksFirst := false, delegatesTo := "", derefsFirst := true }] 3 "Truncate" = false := by
+  decide
 
 end stale
 
